@@ -25,7 +25,10 @@ def build(rng, n, m, rects, place):
     sp = {}
     def spell(k, a):
         return sp.setdefault((k, a), rng.choice(['bare', 'explicit']))
-    xml, expected = render(rects, n, m, tx, spell)
+    HID = ['<w:p/>', '<w:p/>', '<w:p><w:pPr><w:pStyle w:val="Heading1"/></w:pPr></w:p>', '<w:p><w:pPr><w:jc w:val="center"/></w:pPr><w:r><w:rPr><w:b/></w:rPr></w:r></w:p>',
+           '<w:p><w:pPr><w:pStyle w:val="Heading3"/><w:rPr><w:i/></w:rPr></w:pPr></w:p>']
+    hid = {}
+    xml, expected = render(rects, n, m, tx, spell, hidden=lambda k, a: hid.setdefault((k, a), rng.choice(HID)))
     before = p(r('«9001»before')); after = p(r('«9002»after'))
     parts = {}
     if place == 'body-first': body = xml + after
@@ -53,7 +56,8 @@ def one(ctx, data, expected, attr, meta):
         first = want[0][0][0]
         hit = [t for t in tables if t and t[0] and t[0][0] and first in ''.join(t[0][0])]
         # inside a note the label is prefixed to the first paragraph; strip known prefixes for comparison
-        def norm(t): return [[[s for s in c] for c in rw] for rw in t]
+        import re as _re
+        def norm(t): return [[[_re.sub(r'^<(h\d)></\1>$', '', s) for s in c] for c in rw] for rw in t]      # an empty paragraph keeps its heading tags with html on
         if len(hit) != 1 or norm(hit[0]) != want:
             ctx.fail('a regular source table is not extracted as the n x m grid of its covering cells', case, {'extracted': hit[:2] or tables[:3], 'expected': want}); good = False
         res[(html, dup)] = hit[0] if hit else None
